@@ -233,8 +233,8 @@ def trace_on(draw, graph, min_len=1, max_len=7, kinds=None, time=False, sigmas=N
 
 
 NOISE = [0.25, 0.5, 0.5, 1.0, 1.0, 2.0]
-MAXD = [None, None, 0.5, 1.0, 1.5, 2.0, 3.0]
-MINP = [None, None, 0.001, 0.1, 0.5, 0.9]
+MAXD = [None, None, None, 0.5, 1.0, 1.5, 2.0, 3.0]
+MINP = [None, None, None, 0.001, 0.01, 0.1, 0.5, 0.9]
 
 
 @st.composite
@@ -245,7 +245,7 @@ def config(draw, families=("simple", "simple_n", "distance"), ne=None, width="ra
     cfg["obs_noise"] = draw(st.one_of(st.sampled_from(NOISE), st.floats(0.05, 5.0).map(lambda v: round(v, 3))))
     if cutoffs:
         cfg["max_dist"] = draw(st.sampled_from(MAXD))
-        cfg["max_dist_init"] = draw(st.sampled_from([None, None, None, 0.5, 1.0, 1.5, 2.5]))
+        cfg["max_dist_init"] = draw(st.sampled_from([None, None, None, None, None, 0.5, 1.0, 1.5, 2.5]))
         cfg["min_prob_norm"] = draw(st.sampled_from(MINP))
     else:
         cfg["max_dist"] = None
